@@ -118,6 +118,20 @@ if dp is not None:
             for _ in range(depth):
                 data = pickle.dumps(Via(wfn, data))
             cases.append((wname, need, f"dotted-name {dn}", depth, data, None))
+# "before it is resolved": a forbidden global in a module that is importable but not imported yet — importing it leaves a trace
+import os  # noqa: E402
+PROBE_DIR = os.getcwd()
+with open(os.path.join(PROBE_DIR, "verif_c07_probe.py"), "w") as _f:
+    _f.write("import sys\nsys.modules.setdefault('verif_c07_probe_was_imported', sys.modules[__name__])\ndef thing(*a):\n    return a\n")
+if PROBE_DIR not in sys.path:
+    sys.path.insert(0, PROBE_DIR)
+PROBE = b"cverif_c07_probe\nthing\n."
+for wname, wfn, need in WRAPPERS:
+    for depth in range(0, 3):
+        data = PROBE
+        for _ in range(depth):
+            data = pickle.dumps(Via(wfn, data))
+        cases.append((wname, need, "importable-forbidden-module", depth, data, None))
 for wname, need, kind, depth, bad, good in cases:
     for adds in ADDITION_SETS:
         hook.remove_hook()
@@ -134,7 +148,14 @@ for wname, need, kind, depth, bad, good in cases:
                     outcome = "unsafe-file-error"
                 except Exception as e:  # noqa
                     outcome = f"{type(e).__name__}: {e}"[:120]
-                if RESOLVED:
+                imported = [m for m in ("verif_c07_probe", "verif_c07_probe_was_imported") if m in sys.modules]
+                for m in imported:
+                    del sys.modules[m]
+                if imported:
+                    fails.append({"entry_point": ename, "through": wname, "payload": kind, "depth": depth, "additions": list(adds) + list(need),
+                                  "what": "a global outside the allowlist and the additions was resolved (its module was imported) before the load was aborted",
+                                  "outcome": outcome})
+                elif RESOLVED:
                     fails.append({"entry_point": ename, "through": wname, "payload": kind, "depth": depth, "additions": list(adds) + list(need),
                                   "what": "a global outside the allowlist and the additions was resolved and called", "outcome": outcome})
                 elif outcome != "unsafe-file-error":
